@@ -246,6 +246,22 @@ class Guarded(Contract):
 
 
 @register
+class GuardedTermination(Guarded):
+    """... and the way the body ENDS is the way the call ends (C18): sys.exit(n), Ctrl-C or an uncaught exception that
+    starts inside a guarded function reaches the interpreter.  A wrapper that swallowed it would let the script run on to
+    a normal end -- after sys.exit(3) the overrider has already recorded the status, so the run ends with status 0 and
+    automatic proving on, yet nothing is proved; after an exception a crashed computation is proved."""
+    name = "pysnark.runtime:guarded.<locals>._guarded.<locals>.__guarded#termination"
+    vprops = ("C18",)
+    fprops = ("C18",)
+    layer = "process"
+
+    def configs(self, tier):
+        return [dict(outer="none", ie0=False, exit=x, bits=2, raises_only=True) for x in ("SystemExit", "KeyboardInterrupt", "Exception")] + \
+               [dict(outer="none", ie0=False, exit="return", bits=2)]
+
+
+@register
 class IgnoreErrors(Contract):
     """ignore_errors(val=None): the switch of the run-time checks.  Called with True or False it sets the flag to
     exactly that value (also back to False) and returns it; called without argument it only reports the flag.
